@@ -200,3 +200,53 @@ Lemma w_deep_branch :
 Proof.
   exists e0, (wnode [wtip "c"; wtip "d"]). split; [simpl; tauto|]. split; [vm_compute; lia|discriminate].
 Qed.
+
+(** * every branch of a good tree has a tip on both sides: p >= 1 *)
+Lemma slots_leaves_nonempty : forall s : list slot,
+    s <> [] -> n_up s = 0 ->
+    flat_map (fun x => match x with Some (_, ch) => leaves ch | None => [] end) s <> [].
+Proof.
+  intros s NE U. destruct s as [|[[e c]|] r]; [congruence| |unfold n_up in U; simpl in U; lia].
+  simpl. intros H. apply app_eq_nil in H. destruct H as [H _]. exact (leaves_nonempty c H).
+Qed.
+
+Theorem topo_depth_pos : forall ref e c,
+    good ref -> In (e, c) (edges ref) -> 1 <= topo_depth ref c.
+Proof.
+  intros ref e c G Hin. destruct (model_args ref e c G Hin) as [_ [_ [_ E]]]. rewrite E.
+  pose proof (leaves_nonempty c) as NA.
+  assert (LA : 1 <= length (leaves c)) by (destruct (leaves c); [congruence|simpl; lia]).
+  assert (LX : length (leaves c) < length (leaves ref)).
+  { pose proof (c_sub ref e c G Hin) as Hs. destruct G as [W [D N]].
+    destruct ref as [n cm sl]. unfold degree in D. cbn [uslots] in D.
+    apply subs_in in Hs. destruct Hs as [e0 [c0 [Hs Hc]]]. cbn [uslots] in Hs.
+    assert (L0 : length (leaves c) <= length (leaves c0)).
+    { destruct Hc as [->|Hc]; [lia|]. destruct (subs_segment c0 c Hc) as [l1 [l2 E0]].
+      rewrite E0, !app_length. lia. }
+    rewrite (leaves_root n cm sl (root_kids n cm sl W D)).
+    apply wf_inv in W. destruct W as [U _].
+    apply in_split in Hs. destruct Hs as [s1 [s2 ->]].
+    rewrite flat_map_app. cbn [flat_map]. rewrite !app_length.
+    assert (U12 : n_up s1 = 0 /\ n_up s2 = 0).
+    { unfold n_up in *. rewrite filter_app, app_length in U. simpl in U. lia. }
+    rewrite app_length in D. simpl in D.
+    destruct s1 as [|x s1'].
+    - destruct s2 as [|y s2']; [simpl in D; lia|].
+      pose proof (slots_leaves_nonempty (y :: s2') ltac:(discriminate) (proj2 U12)) as NE.
+      destruct (flat_map _ (y :: s2')); [congruence|simpl; lia].
+    - pose proof (slots_leaves_nonempty (x :: s1') ltac:(discriminate) (proj1 U12)) as NE.
+      destruct (flat_map _ (x :: s1')); [congruence|simpl; lia]. }
+  lia.
+Qed.
+
+(** (i) without the hypothesis on p *)
+Theorem min_transfer_dist_delta_good : forall (ref boot : utree) (e : einfo) (c : utree),
+    good ref -> good boot ->
+    (forall x, In x (leaves ref) <-> In x (leaves boot)) ->
+    In (e, c) (edges ref) ->
+    min_transfer_dist (length (tips ref)) (topo_depth ref c) (ntax_right c) (below c) false boot
+    = delta (leaves ref) (light (leaves ref) (leaves c)) boot.
+Proof.
+  intros ref boot e c G Gb S Hin. apply (min_transfer_dist_delta ref boot e c G Gb S Hin).
+  eapply topo_depth_pos; eassumption.
+Qed.
